@@ -6,7 +6,7 @@ from . import common as C
 TIMEOUT = 1500
 RULE = ('storage histories in which, at a random point, the n-th file operation of one kind (create / open / append / '
         'positional write / sync) on blob or index files is made to fail with ENOSPC or EIO or to write short (hook H1 '
-        'failpoints), in client calls and in background dumps/rotation; afterwards: all reads immediately, after the fault '
+        'failpoints), in client calls and in background dumps/rotation, in the first session or after a restart (re-opened, O_APPEND blob files); afterwards: all reads immediately, after the fault '
         'is cleared, after more writes and a forced rotation, and after a restart. Oracle: the Coq specification replayed '
         'over the ACKNOWLEDGED operations only (failed operations removed) must agree with every read in the session; '
         'after the restart every acknowledged record is served or a blob was quarantined; mutators succeed once the fault '
@@ -15,7 +15,7 @@ ASSUMPTIONS = ['faults are injected at pearl\'s File layer (hook H1); directory-
 
 
 def gen_script(rng):
-    g = Gen(rng, queries=(), maint=0.25, restart=0.0, deletes=0.15, bg=0.0, nops=rng.randrange(5, 14), dup=1, metas=False)
+    g = Gen(rng, queries=(), maint=0.25, restart=rng.choice([0.0, 0.0, 0.2]), deletes=0.15, bg=0.0, nops=rng.randrange(5, 14), dup=1, metas=False)
     text = g.build().strip().split('\n')
     L = list(text)
     qs = []
@@ -99,6 +99,9 @@ def oracle(lines, io, spec=None):
             return '[F2] '
         if any(io[j] == 'quiesce dead' for j in range(min(len(io), len(lines))) if lines[j] == 'quiesce'):
             return '[F1] '
+        if kind == 'append' and pat == '.blob' and any(l in ('close', 'drop') for l in lines[:fi]) and \
+                any(lines[j].split()[0] in ('W', 'D') and ' Err Io' in io[j] for j in range(fi, min(ci, len(io)))):
+            return '[F20] '
         if pat == '.index' or kind == 'writeat':
             return '[F9] '
         if kind == 'sync' and any(lines[j] == 'close_active' and ' Err ' in io[j] for j in range(fi, min(i + 1, len(io)))):
